@@ -632,3 +632,33 @@ def c05_formula(**p):
         problems, _ = layout_problems(s, elements)
         c.oblige("hill-formula-and-grammar", not problems, problems[:2])
     return body
+
+
+# ---------------------------------------------------------------------------
+# C02: pairs of non-isomorphic skeletons that 1-dimensional refinement cannot tell apart
+
+WL_PAIRS = [("C6-ring", "2xC3"), ("C8-ring", "C4+C4"), ("prism", "K33")]
+
+
+def c02_wlpairs(**p):
+    def body(c):
+        from props.common import CURATED
+        from symx.core import implies
+        a, b = WL_PAIRS[c.choice("pair", len(WL_PAIRS))]
+        mols = []
+        for tag, name in (("x", a), ("y", b)):
+            n, bonds = CURATED[name]
+            la = c.choice(f"lab_{tag}", n + 1)            # one mass label at a solver-chosen atom, or none
+            mass = [None] * n
+            if la < n:
+                mass[la] = c.int(f"m_{tag}", lo=1)
+            mols.append(Mol(["C"] * n, mass, [None] * n, {tuple(sorted(e)): {} for e in bonds}))
+        s1 = ser(canon(graph_of(mols[0].listing())))
+        s2 = ser(canon(graph_of(mols[1].listing())))
+        c.note("pair", [a, b])
+        c.note("tucan_1", s1)
+        c.note("tucan_2", s2)
+        iso, nphi = iso_condition(mols[0].n, mols[0].elements, list(mols[0].bonds), mols[0].mass, mols[0].rad,
+                                  mols[1].elements, list(mols[1].bonds), mols[1].mass, mols[1].rad)
+        c.oblige("equal-strings-imply-isomorphic", implies(str_eq(s1, s2), iso))
+    return body
